@@ -98,8 +98,13 @@ def match_known(v, known):
     key = finding_key(v)
     w = v.get('witness')
     wtxt = w if isinstance(w, str) else json.dumps(w, ensure_ascii=False)
+    fields = ('property', 'module', 'func', 'options', 'kind', 'exc_type', 'frame')
     for k in known:
-        if finding_key(k) != key:
+        # an entry field "*" matches any value (one defect seen under several option sets / value-type combinations); such
+        # entries must carry a witness_regex that pins them to the failing input shape
+        if any(str(k.get(f, '')) != '*' and str(k.get(f, '')) != str(v.get(f, '')) for f in fields):
+            continue
+        if '*' in [str(k.get(f, '')) for f in fields] and not (k.get('witness_regex') or k.get('detail_regex')):
             continue
         if k.get('witness_regex') and not re.search(k['witness_regex'], wtxt or ''):
             continue
